@@ -227,6 +227,19 @@ def run_case(case, ctx):
                 cfg['adj'] = 'm'
             elif route == 'object':
                 calendar(Calendar(key, holidays=hol, weekend=cfg['weekend'], t0=t0, t1=t1, adj=cfg['adj']))
+            elif route == 'object_kw' and key in reg:
+                # the registered calendar re-registered through its own object with new holidays / weekend (possibly none at all); its range stays
+                old = reg[key]
+                t0, t1 = datetime.datetime.fromisoformat(old['t0']), datetime.datetime.fromisoformat(old['t1'])
+                hol = [h for h in hol if t0 <= h <= t1]
+                if step.get('clear'):
+                    hol = []
+                cfg = dict(cfg, t0=old['t0'], t1=old['t1'], holidays=[h.isoformat() for h in hol], adj='m')
+                calendar(calendar(key), holidays=hol, weekend=cfg['weekend'])
+                ctx.cls('reregistered_through_its_object')
+            elif route == 'object_kw':
+                calendar(key, hol, cfg['weekend'], t0, t1)
+                cfg['adj'] = 'm'
             else:
                 raise HarnessError(route)
             if key in populated:
@@ -342,7 +355,7 @@ def gen_case(rng, tier):
     steps = []
     for i in range(nsteps):
         cfg, crosses = gen_cfg(rng)
-        steps.append({'key': 'A' if i == 0 or rng.random() < 0.7 else 'B', 'route': rng.choice(['calendar', 'calendar', 'object']), 'cfg': cfg, 'run_crosses_month_end': crosses and cfg['weekend'] != []})
+        steps.append({'key': 'A' if i == 0 or rng.random() < 0.7 else 'B', 'route': rng.choice(['calendar', 'calendar', 'object', 'object_kw']), 'clear': rng.random() < 0.4, 'cfg': cfg, 'run_crosses_month_end': crosses and cfg['weekend'] != []})
     if tier == 'thorough':
         ns = list(range(-40, 41)); stride = 1
     else:
